@@ -593,20 +593,35 @@ type livelock struct {
 	CPU   float64
 }
 
-// where names the function of package transmit the spinning goroutine is in (innermost frame of that package).
+// where names the innermost method of DirectTransmission the spinning goroutine is in (else the innermost function of
+// package transmit), without arguments or addresses.
 func (l *livelock) where() string {
+	const p = "github.com/honeycombio/refinery/transmit."
+	other := ""
 	for _, line := range strings.Split(l.Stack, "\n") {
-		const p = "github.com/honeycombio/refinery/transmit."
-		if i := strings.Index(line, p); i >= 0 {
-			f := line[i+len(p):]
-			if j := strings.IndexByte(f, '('); j > 0 && strings.HasPrefix(f, "(*") { // (*DirectTransmission).sendBatch(...)
-				f = strings.TrimPrefix(f, "(*DirectTransmission).")
+		i := strings.Index(line, p)
+		if i < 0 || strings.HasPrefix(line, "\t") {
+			continue
+		}
+		f := line[i+len(p):]
+		typ := ""
+		if strings.HasPrefix(f, "(*") {
+			if j := strings.Index(f, ")."); j > 0 {
+				typ, f = f[2:j], f[j+2:]
 			}
-			if j := strings.IndexAny(f, "(."); j > 0 {
-				f = f[:j]
-			}
+		}
+		if j := strings.IndexAny(f, "(."); j > 0 {
+			f = f[:j]
+		}
+		if typ == "DirectTransmission" {
 			return f
 		}
+		if other == "" {
+			other = f
+		}
+	}
+	if other != "" {
+		return other
 	}
 	return "code-under-test"
 }
@@ -956,6 +971,7 @@ func (w *world) teardown() {
 		w.net.release(c, w.buildReply(answer{Kind: "ok"}, c.req))
 	}
 	if w.stopDone == nil {
+		w.trace = append(w.trace, fmt.Sprintf("@%v (end of history: the real Stop() is called to release the transmission)", w.now()))
 		w.stopDone = make(chan struct{})
 		go func() {
 			defer close(w.stopDone)
